@@ -112,6 +112,7 @@ class GRPEngine(Engine):
         self.retriable = []  # delivered retriable failures awaiting the documented follow-up (C17.4)
         self.seen_frames = set()
         self._replies_seen = 0
+        self._dot_checks = []
         self._retr_from = 0
         self._undelivered = []
         self.proc_error_tick = None
@@ -235,6 +236,11 @@ class GRPEngine(Engine):
                 self.eras[-1]["ended"] = ("heartbeat-failed", self.tick)
             if kind in ("join_group", "sync_group", "heartbeat"):
                 self._retriable_seen(rec, result)
+            if result.check(RequestTimedOutError) and kind in ("join_group", "sync_group", "heartbeat") and self.config["dot"]:
+                # C11 (last sentence), judged after the event: the silent connection that carried the request is dropped
+                ws = [x for x in self.writes[-80:] if x["api"] == kind and x["tick"] > rec["tick"]]
+                if ws:
+                    self._dot_checks.append((kind, rec["time"], ws[-1]["conn"]))
             if result.check(RequestTimedOutError) and kind in ("join_group", "sync_group", "heartbeat"):
                 # C11: a group request resolves no earlier than the configured timeout - the stated longer minimum (35 s) for joins -
                 # when no reply arrived (measured from the call, which is not later than the request)
@@ -806,6 +812,12 @@ class GRPEngine(Engine):
                 self.labels.add("stop-deferred-failed:%s" % self.stop_watch.value.type.__name__)
         self._check_backoffs()
         self._check_wedged()
+        while self._dot_checks:
+            kind, t0, conn = self._dot_checks.pop()
+            if not conn.client_closed and not conn.dropped and not conn.lost_delivered and self.stop_called_tick is None:
+                self.note("C11.disconnect-on-timeout", "C11.silent-connection-not-dropped/%s" % kind, "%s issued at t=%.3f timed out (disconnect_on_timeout=True) but the client did not drop the silent connection %r" % (kind, t0, conn))
+            else:
+                self.nt.add("silent-connection-dropped-at-group-timeout")
         # C11: ... and no later than that after its frame was written
         for c in self.calls:
             if c["state"] == "pending" and c["kind"] in ("join_group", "sync_group", "heartbeat") and not c.get("_late"):
